@@ -529,7 +529,7 @@ Proof.
   destruct p; [exact Hp | discriminate].
 Qed.
 
-Lemma prog_of_safe : forall v n, is_culprit n = false -> In (prog_of v n) (safe_progs v).
+Lemma prog_of_safe : forall v n, is_culprit_v v n = false -> In (prog_of v n) (safe_progs v).
 Proof.
   intros v n Hn. unfold prog_of, lookup.
   destruct (find (fun e => String.eqb (e_name e) n) (api_table v)) as [e|] eqn:F.
@@ -542,7 +542,7 @@ Qed.
 Lemma api_race_free_gen : forall v,
   set_protected (safe_progs v) = true ->
   forall (names : list string) (f : field) (sched : list nat),
-    (forall n, In n names -> is_culprit n = false) ->
+    (forall n, In n names -> is_culprit_v v n = false) ->
     race_on f (exec (init (map (prog_of v) names)) sched) = false.
 Proof.
   intros v HS names f sched H.
@@ -559,9 +559,12 @@ Proof. exact (api_race_free_gen Warm safe_warm_protected). Qed.
 
 Lemma api_fixed_race_free_lemma :
   forall (names : list string) (f : field) (sched : list nat),
-    (forall n, In n names -> is_culprit n = false) ->
+    (forall n, In n names -> String.eqb n "SetSchema" = false) ->
     race_on f (exec (init (map (prog_of Fixed) names)) sched) = false.
-Proof. exact (api_race_free_gen Fixed safe_fixed_protected). Qed.
+Proof.
+  intros names f sched H. apply (api_race_free_gen Fixed safe_fixed_protected).
+  intros n Hn. unfold is_culprit_v. simpl. rewrite (H n Hn). reflexivity.
+Qed.
 
 (* ------------------------------------------------------------ guard discipline on the table *)
 
